@@ -143,7 +143,7 @@ func init() {
 			Assumptions:    append(append([]string{}, assumptions...), commonAssumptions...),
 			QuickBudget:    280 * time.Second, // sized for ≈ 45 s on an idle 16-core machine; the slack is for a loaded one
 			ThoroughBudget: 24 * time.Minute,
-			Oracles:        map[string]eng.Oracle{"schedule": replayOracle(id, sp.target), "race": replayOracle(id, sp.target)},
+			Oracles:        map[string]eng.Oracle{"schedule": replayOracle(id, sp.target), "race": raceReplayOracle(id, sp.target, sp.raceRuns)},
 			Solo:           func(p *eng.Solo) { runSpec(p, sp) },
 		})
 	}
